@@ -507,6 +507,38 @@ structure Desc where
   glc : Nat := 0
   offset : Nat := 0
   lit : Option Nat := none
+  -- VOP3a / VOP3b (second dword: SRC0 9 bits = `src0`, SRC1, SRC2, OMOD, NEG; first dword: VDST = `vdst`,
+  -- ABS + OP_SEL (VOP3a) or SDST = `sdst` (VOP3b), CLAMP)
+  src1 : Nat := 0
+  src2 : Nat := 0
+  abs : Nat := 0
+  neg : Nat := 0
+  omod : Nat := 0
+  clamp : Nat := 0
+  opsel : Nat := 0
+  -- DS (OFFSET0, OFFSET1, GDS; ADDR, DATA0, DATA1, VDST = `vdst`)
+  offset0 : Nat := 0
+  offset1 : Nat := 0
+  gds : Nat := 0
+  addr : Nat := 0
+  data0 : Nat := 0
+  data1 : Nat := 0
+  -- FLAT / GLOBAL / SCRATCH (OFFSET 13 bits = `offset`, SEG, GLC = `glc`, SLC; ADDR = `addr`, DATA, SADDR, NV/TFE,
+  -- VDST = `vdst`)
+  seg : Nat := 0
+  slc : Nat := 0
+  data : Nat := 0
+  saddr : Nat := 0
+  tfe : Nat := 0
+  -- VOP2 with an SDWA second dword (`sdwa = 1`: the SRC0 field of the first dword says 249 and `src0` is the
+  -- 8-bit SRC0 of the SDWA dword; S0/S1 say that SRC0/VSRC1 name an SGPR)
+  sdwa : Nat := 0
+  s0 : Nat := 0
+  s1 : Nat := 0
+  dstSel : Nat := 0
+  dstUnused : Nat := 0
+  src0Sel : Nat := 0
+  src1Sel : Nat := 0
 deriving Repr, DecidableEq, Inhabited
 
 def bytes32 (w : Nat) : List Nat := [w % 256, w / 256 % 256, w / 65536 % 256, w / 16777216 % 256]
@@ -518,15 +550,35 @@ def encWord (d : Desc) : Nat :=
   else if d.ft == FT_SOP1 then 0xBE800000 + d.sdst * 2 ^ 16 + d.op * 2 ^ 8 + d.ssrc0
   else if d.ft == FT_SOPC then 0xBF000000 + d.op * 2 ^ 16 + d.ssrc1 * 2 ^ 8 + d.ssrc0
   else if d.ft == FT_SOPP then 0xBF800000 + d.op * 2 ^ 16 + d.simm16
-  else if d.ft == FT_VOP2 then d.op * 2 ^ 25 + d.vdst * 2 ^ 17 + d.vsrc1 * 2 ^ 9 + d.src0
+  else if d.ft == FT_VOP2 then d.op * 2 ^ 25 + d.vdst * 2 ^ 17 + d.vsrc1 * 2 ^ 9 + (if d.sdwa == 1 then 249 else d.src0)
   else if d.ft == FT_VOP1 then 0x7E000000 + d.vdst * 2 ^ 17 + d.op * 2 ^ 9 + d.src0
   else if d.ft == FT_VOPC then 0x7C000000 + d.op * 2 ^ 17 + d.vsrc1 * 2 ^ 9 + d.src0
   else if d.ft == FT_SMEM then 0xC0000000 + d.op * 2 ^ 18 + d.imm * 2 ^ 17 + d.glc * 2 ^ 16 + d.sdata * 2 ^ 6 + d.sbase
+  else if d.ft == FT_VOP3a then 0xD0000000 + d.op * 2 ^ 16 + d.clamp * 2 ^ 15 + d.opsel * 2 ^ 11 + d.abs * 2 ^ 8 + d.vdst
+  else if d.ft == FT_VOP3b then 0xD0000000 + d.op * 2 ^ 16 + d.clamp * 2 ^ 15 + d.sdst * 2 ^ 8 + d.vdst
+  else if d.ft == FT_DS then 0xD8000000 + d.op * 2 ^ 17 + d.gds * 2 ^ 16 + d.offset1 * 2 ^ 8 + d.offset0
+  else if d.ft == FT_FLAT then 0xDC000000 + d.op * 2 ^ 18 + d.slc * 2 ^ 17 + d.glc * 2 ^ 16 + d.seg * 2 ^ 14 + d.offset
   else 0
 
-/-- second dword: the second half of an 8-byte format, or the literal -/
+/-- the SDWA dword ("VOP_SDWA" of the GFX9 ISA: SRC0 [7:0], DST_SEL [10:8], DST_U [12:11], CLMP [13], OMOD [15:14],
+    SRC0_SEL [18:16], SRC0_SEXT [19], SRC0_NEG [20], SRC0_ABS [21], S0 [23], SRC1_SEL [26:24], SRC1_SEXT [27],
+    SRC1_NEG [28], SRC1_ABS [29], S1 [31]); a description carries only the fields the decoder supports -/
+def sdwaWord (d : Desc) : Nat :=
+  d.s1 * 2 ^ 31 + d.src1Sel * 2 ^ 24 + d.s0 * 2 ^ 23 + d.src0Sel * 2 ^ 16 + d.dstUnused * 2 ^ 11 + d.dstSel * 2 ^ 8 + d.src0
+
+/-- second dword of the 8-byte vector / memory formats -/
+def hiWord (d : Desc) : Nat :=
+  if d.ft == FT_VOP3a || d.ft == FT_VOP3b then d.neg * 2 ^ 29 + d.omod * 2 ^ 27 + d.src2 * 2 ^ 18 + d.src1 * 2 ^ 9 + d.src0
+  else if d.ft == FT_DS then d.vdst * 2 ^ 24 + d.data1 * 2 ^ 16 + d.data0 * 2 ^ 8 + d.addr
+  else if d.ft == FT_FLAT then d.vdst * 2 ^ 24 + d.tfe * 2 ^ 23 + d.saddr * 2 ^ 16 + d.data * 2 ^ 8 + d.addr
+  else 0
+
+/-- second dword: the second half of an 8-byte format, the SDWA dword, or the literal -/
 def encSecond (d : Desc) : Option Nat :=
-  if d.ft == FT_SMEM then some d.offset else d.lit
+  if d.ft == FT_SMEM then some d.offset
+  else if d.ft == FT_VOP3a || d.ft == FT_VOP3b || d.ft == FT_DS || d.ft == FT_FLAT then some (hiWord d)
+  else if d.ft == FT_VOP2 && d.sdwa == 1 then some (sdwaWord d)
+  else d.lit
 
 def encode (d : Desc) : List Nat :=
   bytes32 (encWord d) ++ (match encSecond d with | some l => bytes32 l | none => [])
@@ -536,7 +588,8 @@ def usesLit (d : Desc) : Bool :=
   if d.ft == FT_SOP2 || d.ft == FT_SOPC then d.ssrc0 == 255 || d.ssrc1 == 255
   else if d.ft == FT_SOP1 then d.ssrc0 == 255
   else if d.ft == FT_VOP1 || d.ft == FT_VOPC then d.src0 == 255
-  else if d.ft == FT_VOP2 then d.src0 == 255 || isKOpcode d.op
+  else if d.ft == FT_VOP2 then d.sdwa != 1 && (d.src0 == 255 || isKOpcode d.op)
+  else if d.ft == FT_SOPK then d.op == 20   -- s_setreg_imm32_b32: the ISA puts SIMM32 behind the first dword
   else false
 
 /-- operand code fits its field and denotes an operand -/
@@ -548,12 +601,30 @@ def fieldsOK (d : Desc) : Bool :=
   else if d.ft == FT_SOP1 then codeOK d.ssrc0 256 && codeOK d.sdst 128
   else if d.ft == FT_SOPC then codeOK d.ssrc0 256 && codeOK d.ssrc1 256
   else if d.ft == FT_SOPP then decide (d.simm16 < 65536)
-  else if d.ft == FT_VOP2 then codeOK d.src0 512 && decide (d.vsrc1 < 256) && decide (d.vdst < 256)
+  else if d.ft == FT_VOP2 then
+    if d.sdwa == 1 then
+      decide (d.src0 < 256) && decide (d.vsrc1 < 256) && decide (d.vdst < 256) && decide (d.s0 < 2) && decide (d.s1 < 2) &&
+      decide (d.dstSel < 7) && decide (d.dstUnused < 3) && decide (d.src0Sel < 7) && decide (d.src1Sel < 7) &&
+      !isKOpcode d.op
+    else codeOK d.src0 512 && decide (d.vsrc1 < 256) && decide (d.vdst < 256)
   else if d.ft == FT_VOP1 then codeOK d.src0 512 && decide (d.vdst < 256) && (d.op != 2 || (getOperand d.vdst).isSome)
   else if d.ft == FT_VOPC then codeOK d.src0 512 && decide (d.vsrc1 < 256)
   else if d.ft == FT_SMEM then
     decide (d.sbase < 64) && codeOK d.sdata 128 && decide (d.imm < 2) && decide (d.glc < 2) &&
     (if d.imm == 1 then decide (d.offset < 2 ^ 20) else decide (d.offset ≤ 101))
+  else if d.ft == FT_VOP3a then
+    (if d.op ≤ 255 then codeOK d.vdst 256 else decide (d.vdst < 256)) &&
+    codeOK d.src0 512 && codeOK d.src1 512 && codeOK d.src2 512 &&
+    decide (d.abs < 8) && decide (d.neg < 8) && decide (d.omod < 4) && decide (d.clamp < 2) && decide (d.opsel < 16)
+  else if d.ft == FT_VOP3b then
+    decide (d.vdst < 256) && codeOK d.sdst 128 && codeOK d.src0 512 && codeOK d.src1 512 && codeOK d.src2 512 &&
+    decide (d.neg < 8) && decide (d.omod < 4) && decide (d.clamp < 2)
+  else if d.ft == FT_DS then
+    decide (d.offset0 < 256) && decide (d.offset1 < 256) && decide (d.gds < 2) && decide (d.addr < 256) &&
+    decide (d.data0 < 256) && decide (d.data1 < 256) && decide (d.vdst < 256)
+  else if d.ft == FT_FLAT then
+    decide (d.offset < 2 ^ 13) && decide (d.seg < 4) && decide (d.glc < 2) && decide (d.slc < 2) && decide (d.tfe < 2) &&
+    decide (d.addr < 256) && decide (d.data < 256) && decide (d.saddr < 128) && decide (d.vdst < 256)
   else false
 
 /-- well-formed description: the opcode is in the decode table for the format, every field fits
@@ -591,6 +662,14 @@ def instOfRow (d : Desc) (row : Row) : Inst :=
       let i := { i with simm16 := some (.int 0 d.simm16) }
       if d.op == 12 then { i with vmcnt := d.simm16 % 16, lkgmcnt := d.simm16 / 256 % 32 } else i
     else if d.ft == FT_VOP2 then
+      if d.sdwa == 1 then
+        { i with isSdwa := true,
+                 src0 := some (if d.s0 != 0 then sreg d.src0 d.src0 0 else vreg d.src0 d.src0 0),
+                 src1 := some (if d.s1 != 0 then sreg d.vsrc1 d.vsrc1 0 else vreg d.vsrc1 d.vsrc1 0),
+                 dst := some (vreg d.vdst d.vdst 0),
+                 dstSel := sdwaSel d.dstSel, dstUnused := d.dstUnused,
+                 src0Sel := sdwaSel d.src0Sel, src1Sel := sdwaSel d.src1Sel }
+      else
       let i := { i with src0 := some (withLit d.lit (opndOf d.src0)), src1 := some (vreg d.vsrc1 d.vsrc1 0),
                         dst := some (vreg d.vdst d.vdst 0) }
       if isKOpcode d.op then { i with imm := true, src2 := some (.lit 0 (d.lit.getD 0)) } else i
@@ -615,14 +694,244 @@ def instOfRow (d : Desc) (row : Row) : Inst :=
       { i with glc := d.glc != 0, imm := d.imm != 0, base := some (sreg (d.sbase * 2) (d.sbase * 2) 2),
                data := some dt,
                offset := some (if d.imm != 0 then .int 0 d.offset else sreg d.offset d.offset 1) }
+    else if d.ft == FT_VOP3a then
+      let dd := if d.op ≤ 255 then opndOf d.vdst else vreg d.vdst d.vdst 0
+      let base : Inst :=
+        { i with dst := some (with64 row.dstW dd), abs := d.abs,
+                 src0Abs := d.abs &&& 1 > 0, src1Abs := d.abs &&& 2 > 0, src2Abs := d.abs &&& 4 > 0,
+                 clamp := d.clamp != 0,
+                 src0 := some (with64 row.src0W (opndOf d.src0)), src1 := some (with64 row.src1W (opndOf d.src1)),
+                 omod := d.omod, neg := d.neg,
+                 src0Neg := d.neg &&& 1 > 0, src1Neg := d.neg &&& 2 > 0, src2Neg := d.neg &&& 4 > 0 }
+      -- VOP3P (packed) rows: OP_SEL in bits 11.., OP_SEL_HI shares the OMOD field (+ bit 14 for three sources)
+      let base : Inst :=
+        if d.op == 944 then { base with opSel := d.opsel % 8, opSelHi := d.omod ||| ((d.opsel / 8) <<< 2) }
+        else if 945 ≤ d.op && d.op ≤ 946 then { base with opSel := d.opsel % 4, opSelHi := d.omod }
+        else base
+      if row.src2W != 0 then { base with src2 := some (with64 row.src2W (opndOf d.src2)) } else base
+    else if d.ft == FT_VOP3b then
+      let base : Inst :=
+        { i with dst := (if d.op > 255 then some (vreg d.vdst d.vdst (if row.dstW == 64 then 2 else 1)) else none),
+                 sdst := some (with64 row.sdstW (opndOf d.sdst)), clamp := d.clamp != 0,
+                 src0 := some (with64 row.src0W (opndOf d.src0)), src1 := some (with64 row.src1W (opndOf d.src1)),
+                 omod := d.omod, neg := d.neg }
+      if d.op > 255 && row.src2W > 0 then { base with src2 := some (with64 row.src2W (opndOf d.src2)) } else base
+    else if d.ft == FT_DS then
+      { i with offset0 := (if dsSeparateOffsets d.op then d.offset0 else d.offset0 + d.offset1 * 256),
+               offset1 := d.offset1, gds := d.gds != 0, addr := some (vreg d.addr d.addr 1),
+               data := (if row.src0W > 0 then some (vreg d.data0 d.data0 (regCountOfWidth row.src0W)) else none),
+               data1 := (if row.src1W > 0 then some (vreg d.data1 d.data1 (regCountOfWidth row.src1W)) else none),
+               dst := (if row.dstW > 0 then some (vreg d.vdst d.vdst (regCountOfWidth row.dstW)) else none) }
     else i
+
+/-- sign extension of the 13-bit FLAT offset to the 32-bit `Offset0` -/
+def signExt13 (raw : Nat) : Nat := if raw &&& (1 <<< 12) != 0 then raw ||| 0xFFFFE000 else raw
+
+/-- registers moved by a FLAT / GLOBAL / SCRATCH opcode (dwordx2 loads/stores and 64-bit atomics: 2, x3: 3, x4: 4;
+    the decoder leaves 0 for the others) -/
+def flatDataCount (op : Nat) : Nat :=
+  if op == 21 || op == 29 || (80 ≤ op && op ≤ 93) then 2
+  else if op == 22 || op == 30 then 3
+  else if op == 23 || op == 31 then 4 else 0
+
+/-- address registers: a 64-bit VGPR pair, or one 32-bit VGPR offset when a scalar base is in use.
+    CDNA3: SADDR = 0x7F is "off", and the FLAT segment (SEG = 0) never uses SADDR; GCN3: SADDR 0x7F or 0 is "off". -/
+def flatAddrCount (c : Bool) (seg saddr : Nat) : Nat :=
+  if c then (if saddr != 0x7F && seg != 0 then 1 else 2) else (if saddr != 0x7F && saddr != 0 then 1 else 2)
+
+/-- the instruction a description denotes on an architecture once its table row is known (FLAT is the one format
+    whose operands depend on the architecture) -/
+def instOfRowArch (c : Bool) (d : Desc) (row : Row) : Inst :=
+  if d.ft == FT_FLAT then
+    { name := row.name, ft := d.ft, opcode := d.op, size := 8,
+      offset0 := signExt13 d.offset, slc := d.slc != 0, glc := d.glc != 0, tfe := d.tfe != 0,
+      saddr := some (.int 0 d.saddr), addr := some (vreg d.addr d.addr (flatAddrCount c d.seg d.saddr)),
+      dst := some (vreg d.vdst d.vdst (flatDataCount d.op)), data := some (vreg d.data d.data (flatDataCount d.op)) }
+  else instOfRow d row
 
 /-- the instruction a well-formed description denotes on an architecture (what decoding its
     encoding must give): the row is the one the architecture's `lookUp` returns -/
 def instOf (c : Bool) (d : Desc) : Inst :=
   match lookUpArch c d.ft d.op with
   | none => default
-  | some row => instOfRow d row
+  | some row => instOfRowArch c d row
+
+/-- the two classes of well-formed descriptions on which the decoder departs from the ISA's packing (kept out of
+    `decode_encode`, refuting `decode_encode_full`): `s_setreg_imm32_b32` (SOPK 20) is followed by a 32-bit SIMM32
+    that the decoder does not consume (size 4), and the SDWA dword's S0 flag is bit 23, where the decoder reads bit 30 -/
+def deviates (d : Desc) : Bool :=
+  (d.ft == FT_SOPK && d.op == 20) || (d.ft == FT_VOP2 && d.sdwa == 1 && d.s0 == 1)
+
+/-! ## Converse direction: canonical form of the bytes `Decode` reads, description read back from an instruction
+
+`normRow` clears every bit the decoder of a (format, row) does not read and drops a second dword that is not consumed;
+`descOf` reads the description back from a decoded instruction. Theorems: `MgpuProofs/Props/C04Conv.lean`. -/
+
+/-- clear bits `lo..hi` -/
+def clr (w lo hi : Nat) : Nat := w - extractBits w lo hi * 2 ^ lo
+
+/-- does a 4-byte format consume the dword behind the first one (literal, SDWA dword, K constant) -/
+def usesSecond4 (ft : Nat) (row : Row) (w0 : Nat) : Bool :=
+  if ft == FT_SOP2 || ft == FT_SOPC then extractBits w0 0 7 == 255 || extractBits w0 8 15 == 255
+  else if ft == FT_SOP1 then extractBits w0 0 7 == 255
+  else if ft == FT_VOP1 || ft == FT_VOPC then extractBits w0 0 8 == 255
+  else if ft == FT_VOP2 then extractBits w0 0 8 == 249 || extractBits w0 0 8 == 255 || isKOpcode row.opcode
+  else false
+
+/-- SDWA dword: OMOD (14..15), the reserved bit 22 and bit 23 (the ISA's S0 — the decoder reads bit 30 instead) are not
+    read; DST_UNUSED 3 is decoded like 0 -/
+def normSdwa (sd : Nat) : Nat :=
+  let a := clr (clr sd 14 15) 22 23
+  if extractBits sd 11 12 == 3 then clr a 11 12 else a
+
+def normRow (c : Bool) (ft : Nat) (row : Row) (w0 : Nat) (w1? : Option Nat) : Nat × Option Nat :=
+  if ft == FT_SMEM then
+    -- first dword: bits 13..15 (SOE/NV and a reserved bit) are not read; second dword: a 20-bit offset
+    -- (21 bits for a CDNA3 immediate)
+    (clr w0 13 15,
+     w1?.map fun w1 => if c && extractBits w0 17 17 != 0 then extractBits w1 0 20 else extractBits w1 0 19)
+  else if ft == FT_VOP3a then
+    -- OP_SEL bits 11..14 are read only by the packed rows 944 (all four) and 945/946 (11..12); SRC2 only by
+    -- three-source rows
+    ((if row.opcode == 944 then w0 else if 945 ≤ row.opcode && row.opcode ≤ 946 then clr w0 13 14 else clr w0 11 14),
+     w1?.map fun w1 => if row.src2W != 0 then w1 else clr w1 18 26)
+  else if ft == FT_VOP3b then
+    ((if row.opcode > 255 then w0 else clr w0 0 7),
+     w1?.map fun w1 => if row.opcode > 255 && row.src2W > 0 then w1 else clr w1 18 26)
+  else if ft == FT_DS then
+    -- bit 25 is neither encoding nor opcode; DATA0 / DATA1 / VDST are read only when the row has that operand
+    (clr w0 25 25,
+     w1?.map fun w1 =>
+       let a := if row.src0W > 0 then w1 else clr w1 8 15
+       let b := if row.src1W > 0 then a else clr a 16 23
+       if row.dstW > 0 then b else clr b 24 31)
+  else if ft == FT_FLAT then
+    -- bit 13 (LDS) and bit 25 are not read; SEG (14..15) is read only by a CDNA3 disassembler, only when
+    -- SADDR ≠ 0x7F, and then only as "SEG ≠ 0" (canonical value 1)
+    (let a := clr (clr (clr w0 13 13) 14 15) 25 25
+     match w1? with
+     | none => a
+     | some w1 =>
+       if c && extractBits w1 16 22 != 0x7F && extractBits w0 14 15 != 0 then a + 2 ^ 14 else a,
+     w1?)
+  else if ft == FT_VOP2 && extractBits w0 0 8 == 249 then (w0, w1?.map normSdwa)
+  else (w0, if usesSecond4 ft row w0 then w1? else none)
+
+/-! ## reading a description back from an instruction -/
+
+def Opnd.code : Opnd → Nat
+  | .reg c _ _ => c
+  | .int c _ => c
+  | .float c => c
+  | .lit c _ => c
+
+def ocode (o : Option Opnd) : Nat :=
+  match o with
+  | some x => x.code
+  | none => 0
+
+def olit (o : Option Opnd) : Option Nat :=
+  match o with
+  | some (.lit _ v) => some v
+  | _ => none
+
+def oint (o : Option Opnd) : Int :=
+  match o with
+  | some (.int _ v) => v
+  | _ => 0
+
+def ocount (o : Option Opnd) : Nat :=
+  match o with
+  | some (.reg _ _ n) => n
+  | _ => 0
+
+/-- 1 when the operand is a scalar register `s<k>` (register index from `R_S0` up), 0 for a VGPR -/
+def oIsSreg (o : Option Opnd) : Nat :=
+  match o with
+  | some (.reg _ idx _) => if idx ≥ R_S0 then 1 else 0
+  | _ => 0
+
+def orr (a b : Option Nat) : Option Nat :=
+  match a with
+  | some v => some v
+  | none => b
+
+def b2n (b : Bool) : Nat := if b then 1 else 0
+
+/-- inverse of `sdwaSel` (the reserved selector 7 gives mask 0) -/
+def selInv (m : Nat) : Nat :=
+  if m == 0xff then 0 else if m == 0xff00 then 1 else if m == 0xff0000 then 2 else if m == 0xff000000 then 3
+  else if m == 0xffff then 4 else if m == 0xFFFF0000 then 5 else if m == 0xFFFFFFFF then 6 else 7
+
+/-- the description a decoded instruction came from (fields the decoder does not read: 0) -/
+def descOf (c : Bool) (i : Inst) : Desc :=
+  let d : Desc := { ft := i.ft, op := i.opcode }
+  if i.ft == FT_SOP2 then
+    { d with ssrc0 := ocode i.src0, ssrc1 := ocode i.src1, sdst := ocode i.dst, lit := orr (olit i.src0) (olit i.src1) }
+  else if i.ft == FT_SOPK then { d with sdst := ocode i.dst, simm16 := (oint i.simm16).toNat }
+  else if i.ft == FT_SOP1 then { d with ssrc0 := ocode i.src0, sdst := ocode i.dst, lit := olit i.src0 }
+  else if i.ft == FT_SOPC then
+    { d with ssrc0 := ocode i.src0, ssrc1 := ocode i.src1, lit := orr (olit i.src0) (olit i.src1) }
+  else if i.ft == FT_SOPP then { d with simm16 := (oint i.simm16).toNat }
+  else if i.ft == FT_VOP2 then
+    if i.isSdwa then
+      { d with sdwa := 1, src0 := ocode i.src0, vsrc1 := ocode i.src1, vdst := ocode i.dst, s0 := 0, s1 := oIsSreg i.src1,
+               dstSel := selInv i.dstSel, dstUnused := i.dstUnused, src0Sel := selInv i.src0Sel,
+               src1Sel := selInv i.src1Sel }
+    else
+      { d with src0 := ocode i.src0, vsrc1 := ocode i.src1, vdst := ocode i.dst, lit := orr (olit i.src0) (olit i.src2) }
+  else if i.ft == FT_VOP1 then
+    { d with src0 := ocode i.src0, vdst := (if i.opcode == 2 then ocode i.dst else ocode i.dst - 256), lit := olit i.src0 }
+  else if i.ft == FT_VOPC then { d with src0 := ocode i.src0, vsrc1 := ocode i.src1, lit := olit i.src0 }
+  else if i.ft == FT_SMEM then
+    { d with sbase := ocode i.base / 2, sdata := ocode i.data, imm := b2n i.imm, glc := b2n i.glc,
+             offset := (if i.imm then (oint i.offset % 2 ^ 21).toNat else ocode i.offset) }
+  else if i.ft == FT_VOP3a then
+    { d with vdst := ocode i.dst, abs := i.abs, clamp := b2n i.clamp,
+             opsel := (if i.opcode == 944 then i.opSel + i.opSelHi / 4 * 8
+                       else if 945 ≤ i.opcode && i.opcode ≤ 946 then i.opSel else 0),
+             src0 := ocode i.src0, src1 := ocode i.src1, src2 := ocode i.src2, omod := i.omod, neg := i.neg }
+  else if i.ft == FT_VOP3b then
+    { d with vdst := ocode i.dst, sdst := ocode i.sdst, clamp := b2n i.clamp,
+             src0 := ocode i.src0, src1 := ocode i.src1, src2 := ocode i.src2, omod := i.omod, neg := i.neg }
+  else if i.ft == FT_DS then
+    { d with offset0 := (if dsSeparateOffsets i.opcode then i.offset0 else i.offset0 % 256), offset1 := i.offset1,
+             gds := b2n i.gds, addr := ocode i.addr, data0 := ocode i.data, data1 := ocode i.data1, vdst := ocode i.dst }
+  else if i.ft == FT_FLAT then
+    { d with offset := i.offset0 % 8192, seg := (if c && ocount i.addr == 1 then 1 else 0),
+             glc := b2n i.glc, slc := b2n i.slc, tfe := b2n i.tfe,
+             addr := ocode i.addr, data := ocode i.data, saddr := (oint i.saddr).toNat, vdst := ocode i.dst }
+  else d
+
+/-- the formats that have a decoder -/
+def ft13 : List Nat :=
+  [FT_SOP2, FT_SOPK, FT_SOP1, FT_SOPC, FT_SOPP, FT_VOP2, FT_VOP1, FT_VOPC, FT_SMEM, FT_VOP3a, FT_VOP3b, FT_DS, FT_FLAT]
+
+/-- canonical form of the words a decode looks at: the format is matched and the row looked up as `Decode` does, then
+    `normRow`; words that match no format / no row are left alone (they are errors whatever the other bits say) -/
+def normCore (c : Bool) (w0 : Nat) (w1? : Option Nat) : Nat × Option Nat :=
+  match matchFormat w0 with
+  | none => (w0, w1?)
+  | some f =>
+    match lookUpArch c f.ft (extractBits w0 f.opLo f.opHi) with
+    | none => (w0, w1?)
+    | some row => if ft13.contains f.ft then normRow c f.ft row w0 w1? else (w0, w1?)
+
+/-- an SDWA dword with bit 30 set: the decoder reads the SRC0-is-SGPR flag there; the ISA has it at bit 23 -/
+def sdwa30 (w0 : Nat) (w1? : Option Nat) : Bool :=
+  match matchFormat w0, w1? with
+  | some f, some w1 => f.ft == FT_VOP2 && extractBits w0 0 8 == 249 && extractBits w1 30 30 != 0
+  | _, _ => false
+
+/-- the two dwords `Decode` looks at (the second one only when the buffer has 8 bytes) -/
+def wordsOf (b : List Nat) : Nat × Option Nat := (le32 b 0, if b.length ≥ 8 then some (le32 b 4) else none)
+
+def bytesOf (p : Nat × Option Nat) : List Nat :=
+  bytes32 p.1 ++ (match p.2 with | some l => bytes32 l | none => [])
+
+/-- canonical form of a byte string: the words `Decode` reads, with every bit it ignores cleared and an unused second
+    dword (and everything behind) dropped -/
+def normBytes (c : Bool) (b : List Nat) : List Nat := bytesOf (normCore c (wordsOf b).1 (wordsOf b).2)
 
 def formatByName (s : String) : Option Nat := (formats.find? (·.name == s)).map (·.ft)
 
@@ -634,7 +943,12 @@ def parseDesc (fmt : String) (toks : List String) : Option Desc :=
     some { ft := ft, op := op, sdst := g "sdst", ssrc0 := g "ssrc0", ssrc1 := g "ssrc1",
            simm16 := g "simm16", src0 := g "src0", vsrc1 := g "vsrc1", vdst := g "vdst",
            sbase := g "sbase", sdata := g "sdata", imm := g "imm", glc := g "glc", offset := g "offset",
-           lit := Util.kvHex? toks "lit" }
+           lit := Util.kvHex? toks "lit",
+           src1 := g "src1", src2 := g "src2", abs := g "abs", neg := g "neg", omod := g "omod", clamp := g "clamp",
+           opsel := g "opsel", offset0 := g "offset0", offset1 := g "offset1", gds := g "gds", addr := g "addr",
+           data0 := g "data0", data1 := g "data1", seg := g "seg", slc := g "slc", data := g "data",
+           saddr := g "saddr", tfe := g "tfe", sdwa := g "sdwa", s0 := g "s0", s1 := g "s1",
+           dstSel := g "dstsel", dstUnused := g "dstunused", src0Sel := g "src0sel", src1Sel := g "src1sel" }
   | _, _ => none
 
 
@@ -709,7 +1023,24 @@ def handle (line : String) : String :=
     | none => "bad"
   | "c04" :: "inst" :: fmt :: toks =>
     match parseDesc fmt toks with
-    | some d => if wellFormed d then "ok " ++ (instOf false d).str else "illformed"
+    | some d =>
+      if wellFormed d then (if deviates d then "deviates" else "ok " ++ (instOf false d).str) else "illformed"
+    | none => "bad"
+  | "c04" :: "inst3" :: fmt :: toks =>   -- the same on a CDNA3 disassembler
+    match parseDesc fmt toks with
+    | some d =>
+      if wellFormed d then (if deviates d then "deviates" else "ok " ++ (instOf true d).str) else "illformed"
+    | none => "bad"
+  | ["c04", "norm", arch, hex] =>      -- canonical form of the bytes (ignored bits cleared, unused bytes dropped)
+    match hexBytes? hex with
+    | some bs => if bs.length < 4 then "short" else bytesHex (normBytes (arch == "cdna3") bs)
+    | none => "bad"
+  | ["c04", "desc", arch, hex] =>      -- ISA encoding of the description read back from the decoded instruction
+    match hexBytes? hex with
+    | some bs =>
+      match decode (arch == "cdna3") bs with
+      | .ok i => bytesHex (encode (descOf (arch == "cdna3") i))
+      | _ => "-"
     | none => "bad"
   | ["c04", "nrows"] => toString (allRows.filter fun r => (lookUp r.ft r.opcode).map (·.name) == some r.name).length
   | _ => "bad"
